@@ -799,6 +799,11 @@ impl VM {
                 }
                 super::ConstraintArmType::Exact => {
                     let (val, _) = val_iter.next().unwrap();
+                    if let K(named) = val.as_ref() {
+                        // A named constraint used as an arm stands for its own arms.
+                        arms.extend(named.arms.iter().cloned());
+                        continue;
+                    }
                     let ir_val: crate::build::ir::Val = val.as_ref().into();
                     arms.push(ConstraintValArm::Exact(Rc::new(ir_val)));
                 }
